@@ -78,6 +78,30 @@ func Run(c Case) Result {
 	return r
 }
 
+// RunBatch calls the third split entry point, BatchDataCodingEncoder.Build, with the
+// requested coding as its only candidate (its own encode-and-split path).
+func RunBatch(c Case) Result {
+	var r Result
+	text := c.TextString()
+	r.Panic = vk.Guarded("split", c.Proto+"/batch/hang", func() any { return c }, func() {
+		var cand dc.ProtocolDataCoding = dc.CMPPDataCoding(c.Coding)
+		pr := sms.CMPP
+		if c.Proto == "smpp" {
+			cand, pr = dc.SMPPDataCoding(c.Coding), sms.SMPP
+		}
+		parts, act, err := sms.NewBatchDataCodingEncoder().Protocol(pr).Content(text, c.Ref).DataCodings([]dc.ProtocolDataCoding{cand}).Build(context.Background())
+		r.Parts, r.Err = parts, err
+		r.Actual = -2
+		switch a := act.(type) {
+		case dc.CMPPDataCoding:
+			r.Actual = int(a)
+		case dc.SMPPDataCoding:
+			r.Actual = int(a)
+		}
+	})
+	return r
+}
+
 // Representable: can the requested coding represent the text (reference predicate)?
 // disputed=true when the answer depends on which "Latin-1" table is meant.
 func Representable(proto string, coding int, text string) (ok, disputed bool) {
